@@ -190,8 +190,8 @@ def run(ctx):
     removes = [c for c in walk_no_nested(f.node) if isinstance(c, ast.Call) and call_name(c) == "remove" and "filters" in norm(c.func.value)]
     if not inserts and not removes and _o3_swap(ctx, R, f, cfg, lp, dirp):
         inserts = []
-    elif len(inserts) != 2:
-        raise AnalysisError("O3", "movefilter: expected two insert sites (up / down), found %d" % len(inserts))
+    elif len(_insert_sites(f, inserts)) != 2:
+        raise AnalysisError("O3", "movefilter: expected two insert sites (up / down), found %d" % len(_insert_sites(f, inserts)))
     if inserts:
         _o3_remove_insert(ctx, R, f, cfg, lp, dirp, ev, inserts, removes)
     _o4(ctx, R, match_fact)
@@ -296,11 +296,27 @@ def _o3_swap(ctx, R, f, cfg, lp, dirp):
     return True
 
 
+def _insert_sites(f, inserts):
+    """(index expression, statement where that index is decided, insert call): the index may be given directly or through a local
+    that each branch (up / down) sets before a shared remove + insert."""
+    sites = []
+    for c in inserts:
+        a = c.args[0] if c.args else None
+        if isinstance(a, ast.Name):
+            defs = [d for d in walk_no_nested(f.node) if isinstance(d, ast.Assign) and len(d.targets) == 1 and isinstance(d.targets[0], ast.Name)
+                    and d.targets[0].id == a.id]
+            if defs:
+                sites.extend((d.value, d, c) for d in defs)
+                continue
+        sites.append((a, None, c))
+    return sites
+
+
 def _o3_remove_insert(ctx, R, f, cfg, lp, dirp, ev, inserts, removes):
+    sites = _insert_sites(f, inserts)
     # the index variable counts iterations
     idx = None
-    for c in inserts:
-        a = c.args[0]
+    for a, _, c in sites:
         if isinstance(a, ast.BinOp) and isinstance(a.left, ast.Name):
             idx = a.left.id
     enumerate_form = isinstance(lp.iter, ast.Call) and call_name(lp.iter) == "enumerate"
@@ -323,12 +339,11 @@ def _o3_remove_insert(ctx, R, f, cfg, lp, dirp, ev, inserts, removes):
                 return ((cp[1] == "Eq") == pol) is pol_want
             return False
         return pred
-    for c in inserts:
-        a = c.args[0]
+    for a, where, c in sites:
         k = None
         if isinstance(a, ast.BinOp) and isinstance(a.left, ast.Name) and a.left.id == idx and isinstance(a.right, ast.Constant):
             k = a.right.value if isinstance(a.op, ast.Add) else (-a.right.value if isinstance(a.op, ast.Sub) else None)
-        nodes = cfg.node_containing(c)
+        nodes = cfg.nodes_for(where) if where is not None else cfg.node_containing(c)
         is_up = all(cfg.guarded(x, up(True)) for x in nodes)
         is_down = all(cfg.guarded(x, up(False)) for x in nodes)
         want = -1 if is_up else (1 if is_down else None)
@@ -340,7 +355,7 @@ def _o3_remove_insert(ctx, R, f, cfg, lp, dirp, ev, inserts, removes):
                           % (norm(a), "up" if is_up else "down" if is_down else "?", want or 0), node=c,
                           witness="moving a filter skips a position or leaves it in place")
         # remove of the same object precedes
-        rem = [r for r in removes if any(cfg.path_exists(y, x, exc=False) for x in nodes for y in cfg.node_containing(r))
+        rem = [r for r in removes if any(cfg.path_exists(y, x, exc=False) for x in cfg.node_containing(c) for y in cfg.node_containing(r))
                and len(r.args) == 1 and isinstance(r.args[0], ast.Name) and r.args[0].id == ev]
         if not rem:
             ctx.violation("O3", f, "no-remove-before-insert", "an entry is inserted without having been removed first (duplicated entry)", node=c)
@@ -358,8 +373,8 @@ def _o3_remove_insert(ctx, R, f, cfg, lp, dirp, ev, inserts, removes):
                 return ((cp[1] == "Eq") == pol) is False
             return False
         return pred
-    for c in inserts:
-        nodes = cfg.node_containing(c)
+    for a, where, c in sites:
+        nodes = cfg.nodes_for(where) if where is not None else cfg.node_containing(c)
         is_up = all(cfg.guarded(x, up(True)) for x in nodes)
         kind = "first" if is_up else "last"
         if all(cfg.guarded(x, bound_fact(kind)) for x in nodes):
